@@ -85,7 +85,8 @@ ObsInit(C) ==
     \* per retransmitted PDU kind: n transmissions since the count was definitely reset, nr since the
     \* owner was last resumed (-1: not resumed since), time since the last one, all gaps >= timeout
     tx        |-> [k \in TxKinds |-> [n |-> 0, nr |-> -1, since |-> 0, gapok |-> TRUE, mark |-> 0, sameInstant |-> FALSE]],
-    finR      |-> NoFin,                    \* the receiver's success / last Finished indication
+    finR      |-> NoFin,                    \* the receiver's latest Finished indication
+    succResp  |-> <<>>,                     \* filestore responses of its success indication
     finPdu    |-> NoFin ]                   \* the last Finished PDU put on the link
 
 \* ------------------------------------------------------------ event access
@@ -112,6 +113,7 @@ ReqUnits(reqs) == UNION {Units(r[1], r[2]) : r \in reqs}
 \* ------------------------------------------------------------ one step
 Step(o, ev, C) ==
   LET isAck == C.mode = "ack"
+      isUnack == C.mode = "unack"
       N == NUnits(C)
       snd == Sender(ev)
       tgt == Target(ev)
@@ -240,8 +242,10 @@ Step(o, ev, C) ==
                    ELSE [y EXCEPT !.since = Min2(y.since + adv, Bound(C) + 1),
                                   !.sameInstant = y.sameInstant /\ dt = 0]]
 
+      \* the success indication, else the latest Finished indication of the receiver
       finR2 == IF firstDelivery THEN FinOf(CHOOSE x \in finIndR : IsSucc(x, C))
-               ELSE IF finIndR # {} /\ ~o.delivered THEN FinOf(CHOOSE x \in finIndR : TRUE) ELSE o.finR
+               ELSE IF finIndR # {} THEN FinOf(CHOOSE x \in finIndR : TRUE) ELSE o.finR
+      succResp2 == IF firstDelivery THEN (CHOOSE x \in finIndR : IsSucc(x, C)).resp ELSE o.succResp
       finPdu2 == IF finOut # {} THEN FinOf(CHOOSE p \in finOut : TRUE) ELSE o.finPdu
 
       \* =========================================================== violations
@@ -295,13 +299,15 @@ Step(o, ev, C) ==
       v10 == (IF C.isfile /\ (o.ncancel > 0 \/ cancelNow) /\ ev.dest.st # "absent" /\ ~delivered2 THEN {"C10:NoPartialFile"} ELSE {})
              \cup {"C10:CancelEnds" : e \in {x \in Ents : cancel2[x] /\ ~ended2[x] /\ sinceCancel2[x] > Bound(C)}}
              \* (a transfer that completed before the cancel took effect at the peer reports success)
+             \* (no return path: a receiver cancelling an unacknowledged transfer without closure cannot tell the sender)
              \cup (IF justEnded /\ o.cancelEff /\ ~delivered2 /\ nfaults2 = 0 /\ ~o.adversary /\ o.ncancel = 1
+                      /\ ~(isUnack /\ ~C.closure /\ o.cancel["R"])
                       /\ \E e \in Ents : ~repCancel2[e]
                    THEN {"C10:CancelReported"} ELSE {})
 
       treeChanged == ev.tree # o.tree
       v13 == (IF treeChanged /\ ~firstDelivery /\ ~spawned /\ o.rinc = ev.rinc THEN {"C13:RequestsOutsideDelivery"} ELSE {})
-             \cup {"C13:ResponsesDiffer" : p \in {q \in finOut : q.cond = "NoError" /\ o.finR.set /\ q.resp # o.finR.resp}}
+             \cup {"C13:ResponsesDiffer" : p \in {q \in finOut : q.cond = "NoError" /\ o.delivered /\ q.resp # o.succResp}}
              \cup {"C13:ResponsesDiffer" : x \in {y \in finIndS : Delivered(ev, "S", "Finished") /\ y.resp # ev.pin.resp}}
 
       \* one original plus one retransmission per earlier expiration; after a resume that reset the
@@ -321,10 +327,11 @@ Step(o, ev, C) ==
              [] act = "Suspend" -> "Suspended" \in kinds /\ "Abandon" \notin kinds
              [] act = "Abandon" -> "Abandon" \in kinds /\ (IF x.e = "S" THEN ~ev.salive ELSE ~ev.ralive)
              [] OTHER -> kinds \cap {"Abandon", "Suspended"} = {}
-      v17 == {"C17:FaultExact" : x \in {y \in faultInds : ~o.adversary /\ ~faultOk(y)}}
+      \* (once a fault has been ignored / has suspended the entity its counters stay saturated; only the
+      \* first declaration is held to the exact count)
+      v17 == {"C17:FaultExact" : x \in {y \in faultInds : ~o.adversary /\ ~o.excused[y.e] /\ ~faultOk(y)}}
              \cup {"C17:HandlerAsConfigured" : x \in {y \in faultInds : ~handlerOk(y)}}
 
-      isUnack == C.mode = "unack"
       v18 == {"C18:OneWay" : p \in {q \in rOut : isUnack /\ q.k \in {"ACK", "NAK", "KeepAlive"}}}
              \cup (IF isUnack /\ metaOut # {} /\ o.nMeta >= 1 THEN {"C18:OneWay"} ELSE {})
              \cup (IF isUnack /\ eofNoErr # {} /\ o.nEof >= 1 THEN {"C18:OneWay"} ELSE {})
@@ -379,7 +386,7 @@ Step(o, ev, C) ==
                         ELSE IF ev.a = "Tick" \/ (Delivered(ev, "R", "EOF") /\ ~rxEof0) THEN held2 ELSE o.basis,
               markerOk |-> IF spawned THEN TRUE ELSE IF nakOut # {} THEN ~rxMeta2 ELSE o.markerOk \/ ~rxMeta2,
               finSent |-> (o.finSent /\ ~spawned) \/ finOut # {},
-              tx |-> tx2, finR |-> finR2, finPdu |-> finPdu2 ]
+              tx |-> tx2, finR |-> finR2, succResp |-> succResp2, finPdu |-> finPdu2 ]
   IN [o |-> o2,
       v |-> {<<tag, sigOf(tag)>> : tag \in v01 \cup v02 \cup v03 \cup v04 \cup v07 \cup v08 \cup v10 \cup v13 \cup v17 \cup v18 \cup v19 \cup v20}]
 
